@@ -84,7 +84,16 @@ func (gen *generator) irBoolConst(t types.Type, old *ast.BoolConst) (*constant.I
 	if !typ.Equal(types.I1) {
 		return nil, errors.Errorf("boolean type mismatch; expected %q, got %q", types.I1, typ)
 	}
-	return constant.NewBool(boolLit(old.BoolLit())), nil
+	v := boolLit(old.BoolLit())
+	if len(typ.Name()) > 0 {
+		// A named integer type (e.g. `%bool = type i1`); keep the type as
+		// written, as for a constant written `%bool 1`.
+		if v {
+			return constant.NewInt(typ, 1), nil
+		}
+		return constant.NewInt(typ, 0), nil
+	}
+	return constant.NewBool(v), nil
 }
 
 // --- [ Integer constants ] ---------------------------------------------------
